@@ -269,11 +269,9 @@ def run_read(ctx, res, extra_cases):
         bump(dist, "H_in_read_back_domain_" + name)
         res["nontrivial"].add(("H", name, hash(doc)))
         if not (isinstance(model, Ok) and model.v == expected):
-            if name == "MicroDVD":      # contradicts C20_own_read_mdvd
-                res["disagreements"].append({"input": describe(cs), "stream": "H", "fmt": name,
-                                             "what": "reader model does not return the expected captions inside the theorem's domain"})
-            else:
-                bump(dist, "H_srt_reader_model_differs_from_expected(info)")
+            # contradicts C20_own_read_mdvd / C20_own_read_srt: extraction / wire broken
+            res["disagreements"].append({"input": describe(cs), "stream": "H", "fmt": name,
+                                         "what": "reader model does not return the expected captions inside the theorem's domain"})
         if not (isinstance(rd, Ok) and rd.v == expected):
             res["violations"].append({
                 "kind": "own-output-not-read-back:read-domain", "fmt": name, "shape": "read-domain",
